@@ -429,9 +429,27 @@ func c05Paths(c *core.Ctx, idx int) *core.Result {
 	expectOK("non-ascii-name", filepath.Join(base, "文档 ü.docx"))
 	// two saves in a row to the same path
 	expectOK("save-twice", long)
+	// what the path holds when the document is saved to it once more does not matter: its own earlier file damaged without
+	// a change of length, cut short, removed, or replaced by another document's file - afterwards it is this document's package
+	if fb, err := os.ReadFile(long); err == nil && len(fb) > 64 {
+		for i := len(fb) / 3; i < len(fb)/3+24; i++ {
+			fb[i] ^= 0x5a
+		}
+		os.WriteFile(long, fb, 0644)
+		expectOK("saved-again-over-its-own-file-damaged-in-place", long)
+		os.Truncate(long, int64(len(fb)/2))
+		expectOK("saved-again-over-its-own-file-cut-short", long)
+		os.Remove(long)
+		expectOK("saved-again-after-its-file-was-removed", long)
+		if other := c05Doc(c.Seed, idx+6, c.WorkDir); other != nil {
+			if err := other.Save(long); err == nil {
+				expectOK("saved-again-after-another-document-used-the-path", long)
+			}
+		}
+	}
 	res.Nontrivial = true
 	res.Sig = fmt.Sprintf("paths/doc%d", idx)
-	res.Sample = map[string]interface{}{"doc": idx, "path_cases": []string{"dev-full", "below-regular-file", "directory-as-target", "nested-new-directories", "overwrite-longer-file", "non-ascii-name", "save-twice"}}
+	res.Sample = map[string]interface{}{"doc": idx, "path_cases": []string{"dev-full", "below-regular-file", "directory-as-target", "nested-new-directories", "overwrite-longer-file", "non-ascii-name", "save-twice", "saved-again-over-its-own-file-damaged-in-place", "saved-again-over-its-own-file-cut-short", "saved-again-after-its-file-was-removed", "saved-again-after-another-document-used-the-path"}}
 	return res
 }
 
